@@ -114,3 +114,26 @@ def aligned_pairs(pos, cigar):
 
 def ref_len(cigar):
     return sum(n for op, n in cigar_ops(cigar) if op in 'M=XDN')
+
+
+def write_fasta(path, seqs, width=None):
+    """Writes a FASTA file and its .fai index (without calling the in-process samtools dispatcher, which does not give its
+    memory back). seqs: list of (name, sequence); width: line width (None = one line per sequence)."""
+    index = []
+    with open(path, 'w') as f:
+        off = 0
+        for name, seq in seqs:
+            head = '>%s\n' % name
+            f.write(head)
+            off += len(head)
+            w = width or max(1, len(seq))
+            index.append('%s\t%d\t%d\t%d\t%d' % (name, len(seq), off, w, w + 1))
+            for i in range(0, len(seq), w):
+                line = seq[i:i + w] + '\n'
+                f.write(line)
+                off += len(line)
+            if not seq:
+                f.write('\n')
+                off += 1
+    with open(path + '.fai', 'w') as f:
+        f.write('\n'.join(index) + '\n')
